@@ -342,7 +342,7 @@ func genConc(t *rapid.T) (*Case, string) {
 func TestPropConc(t *testing.T) {
 	defer flushStats()
 	hangSeen.Store(false)
-	hx.Check(t, "conc", hx.N(2000, 30000), func(t *rapid.T) {
+	hx.Check(t, "conc", hx.N(2000, 20000), func(t *rapid.T) {
 		c, class := genConc(t)
 		total := 0
 		for _, p := range c.Prods {
